@@ -51,6 +51,7 @@ class Ctx:
         self.fb_calls = {}
         self.returned = {}  # tag -> last value returned
         self.shared_names = set()  # components whose class is shared with another component
+        self.ds_action = None  # {"tags": set | None, "after": k, "fn": callable}: the driver station changes while a callback runs
 
     def snapshot(self):
         r = self.robot
@@ -69,6 +70,12 @@ class Ctx:
         self.log.append((tag, wpilib.RobotController.getFPGATime(), self.snapshot()))
         for cname, attr, value in self.writes.get((tag, n), ()):
             setattr(self.robot.__dict__[cname], attr, value)
+        a = self.ds_action
+        if a is not None and (a["tags"] is None or tag in a["tags"]):
+            a["after"] -= 1
+            if a["after"] <= 0:
+                self.ds_action = None
+                a["fn"]()
         plan = self.faults.get(tag)
         if plan is not None and (plan == "all" or n in plan):
             e = (InjectedBase if tag in self.base_faults else InjectedAttr if tag in self.attr_faults else Injected)(tag, n)
